@@ -748,7 +748,7 @@ pub fn replay(case: &Value) -> Result<Vec<(String, String)>, String> {
             let name = case["spec"].as_str().ok_or("no spec")?;
             let spec = specs.iter().find(|s| s.name() == name).ok_or("spec not found")?;
             // a non-deterministic subject may agree by chance: several attempts
-            for _ in 0..4 {
+            for _ in 0..12 {
                 let v = template_equalities(spec.as_ref(), seed, &[1, 2, 3, 4, 5, 6]);
                 if !v.is_empty() {
                     return Ok(v);
